@@ -143,9 +143,27 @@ class Sim:
         finally:
             base.WorkerTmp = real_tmp
         w.wsgi = app
+        # which kind of lock does the worker's own init_process create?  (run it with the base class part cut off, look,
+        # and put the pieces away again)
+        reentrant = True
+        real_init = base.Worker.init_process
+        base.Worker.init_process = lambda self_: None
+        try:
+            w.init_process()
+            import threading as _threading
+            reentrant = not isinstance(w._lock, type(_threading.Lock()))
+            try:
+                w.tpool.shutdown(False)
+                w.poller.close()
+            except Exception:      # noqa
+                pass
+        except Exception:          # noqa: a tree whose init_process needs more than this keeps the default
+            pass
+        finally:
+            base.Worker.init_process = real_init
         w.tpool = self.pool
         w.poller = self.poller
-        w._lock = sthr.SimLock(self)
+        w._lock = sthr.SimLock(self, reentrant=reentrant)
         if self.fine:
             w._keep = sthr.VDeque()
             w._keep.owner = self
@@ -192,6 +210,9 @@ class Sim:
             except Exception as e:            # the worker loop died
                 outcome = "crash"
                 self.emit("crash", 0, type(e).__name__ + ":" + str(e)[:60])
+            except sthr.SimDeadlock as e:     # the main thread waits for itself: it never runs again
+                outcome = "crash"
+                self.emit("crash", 0, "deadlock:" + str(e)[:60])
             if outcome == "exit":
                 self.busy = True
                 try:
